@@ -32,7 +32,10 @@ model = {
            "rowr": bool,       # r= attribute on <row> and <c> (False: omitted - positions are then implied,
                                #   which is only possible when rows start at 1 and cells at A without gaps)
            "applynf": "absent" | "1",       # applyNumberFormat attribute of the cell xfs
-           "rawcr": bool } }   # write a CR of a text literally (an XML parser then delivers LF) instead of &#13;
+           "rawcr": bool,      # write a CR of a text literally (an XML parser then delivers LF) instead of &#13;
+           "indent": bool,     # insignificant white space (line break + blanks) between the elements inside <sheetData>,
+                               #   <row>, <c>, <is>, <r>, <sst>, <si> (never inside <t>, <v>, <f>)
+           "nosp": bool } }    # never write xml:space="preserve" (outer white space of a text is then unprotected)
 """
 import io
 import zipfile
@@ -81,21 +84,27 @@ def esc(s, mode, attr, rawcr=False):
     return "".join(out)
 
 
+def ind(opts, depth):
+    """insignificant white space between elements (option indent): a line break and 2*depth blanks"""
+    return ("\n" + "  " * depth) if opts.get("indent") else ""
+
+
 def t_elem(text, opts):
-    sp = opts.get("spall") or (text != "" and (text[0] in WS or text[-1] in WS))
+    sp = (opts.get("spall") or (text != "" and (text[0] in WS or text[-1] in WS))) and not opts.get("nosp")
     a = ' xml:space="preserve"' if sp else ""
     return "<t%s>%s</t>" % (a, esc(text, opts["ent"], False, opts.get("rawcr", False)))
 
 
-def rst_body(item, opts):
-    """content of a CT_Rst element (<si> or <is>)"""
+def rst_body(item, opts, depth=0):
+    """content of a CT_Rst element (<si> or <is>) whose start tag sits at indentation level `depth`"""
+    i1, i2, i0 = ind(opts, depth + 1), ind(opts, depth + 2), ind(opts, depth)
     if item["rich"]:
         parts = []
         for i, run in enumerate(item["runs"]):
-            rpr = "<rPr><b/><sz val=\"11\"/><rFont val=\"Calibri\"/></rPr>" if i % 2 == 0 else ""
-            parts.append("<r>%s%s</r>" % (rpr, t_elem(run, opts)))
-        return "".join(parts)
-    return t_elem(item["runs"][0] if item["runs"] else "", opts)
+            rpr = (i2 + "<rPr><b/><sz val=\"11\"/><rFont val=\"Calibri\"/></rPr>") if i % 2 == 0 else ""
+            parts.append("%s<r>%s%s%s%s</r>" % (i1, rpr, i2, t_elem(run, opts), i1))
+        return "".join(parts) + i0
+    return i1 + t_elem(item["runs"][0] if item["runs"] else "", opts) + i0
 
 
 def cell_xml(c, opts):
@@ -117,16 +126,16 @@ def cell_xml(c, opts):
         if f["k"] == "shared":
             fa.append('si="%d"' % f["si"])
         fa = (" " + " ".join(fa)) if fa else ""
-        body.append("<f%s>%s</f>" % (fa, esc(f["text"], opts["ent"], False)) if f["ht"] else "<f%s/>" % fa)
+        body.append(ind(opts, 4) + ("<f%s>%s</f>" % (fa, esc(f["text"], opts["ent"], False)) if f["ht"] else "<f%s/>" % fa))
     if c["hv"]:
         v = c["v"]
-        sp = ' xml:space="preserve"' if (v != "" and (v[0] in WS or v[-1] in WS)) else ""
-        body.append("<v%s>%s</v>" % (sp, esc(v, opts["ent"], False, opts.get("rawcr", False))))
+        sp = ' xml:space="preserve"' if (v != "" and (v[0] in WS or v[-1] in WS) and not opts.get("nosp")) else ""
+        body.append(ind(opts, 4) + "<v%s>%s</v>" % (sp, esc(v, opts["ent"], False, opts.get("rawcr", False))))
     if c["his"]:
-        body.append("<is>%s</is>" % rst_body(c["isr"], opts))
+        body.append(ind(opts, 4) + "<is>%s</is>" % rst_body(c["isr"], opts, 4))
     if not body:
-        return "<c %s/>" % " ".join(a) if a else "<c/>"
-    return "<c%s>%s</c>" % ((" " + " ".join(a)) if a else "", "".join(body))
+        return ind(opts, 3) + ("<c %s/>" % " ".join(a) if a else "<c/>")
+    return ind(opts, 3) + "<c%s>%s%s</c>" % ((" " + " ".join(a)) if a else "", "".join(body), ind(opts, 3))
 
 
 def sheet_xml(sh, opts, link_rids, table_rid):
@@ -149,10 +158,10 @@ def sheet_xml(sh, opts, link_rids, table_rid):
                 a.append('r="%d"' % r)
             if opts.get("spans"):
                 a.append('spans="%d:%d"' % (cs[0]["c"], cs[-1]["c"]))
-            out.append("<row%s>" % ((" " + " ".join(a)) if a else ""))
+            out.append(ind(opts, 2) + "<row%s>" % ((" " + " ".join(a)) if a else ""))
             out.extend(cell_xml(c, opts) for c in cs)
-            out.append("</row>")
-        out.append("</sheetData>")
+            out.append(ind(opts, 2) + "</row>")
+        out.append(ind(opts, 1) + "</sheetData>")
     else:
         out.append("<sheetData/>")
     if sh["links"]:
@@ -253,8 +262,8 @@ def build(model):
         overrides.append(("/xl/sharedStrings.xml", CT + "sharedStrings+xml"))
         s = [DECL, '<sst xmlns="%s" count="%d" uniqueCount="%d">' % (NS_MAIN, len(sst), len(sst))]
         for item in sst:
-            s.append("<si>%s</si>" % rst_body(item, opts))
-        s.append("</sst>")
+            s.append(ind(opts, 1) + "<si>%s</si>" % rst_body(item, opts, 1))
+        s.append(ind(opts, 0) + "</sst>")
         parts["xl/sharedStrings.xml"] = "".join(s)
     parts["xl/_rels/workbook.xml.rels"] = rels_xml(wb_rels, mode)
     parts["_rels/.rels"] = rels_xml([("rId1", REL + "officeDocument", "xl/workbook.xml", False)], mode)
